@@ -189,13 +189,29 @@ def load_matchers(prop_id):
     return known.matchers_for(prop_id)
 
 
+class CaseTimeout(BaseException):
+    pass
+
+
+def _alarm(signum, frame):
+    raise CaseTimeout()
+
+
 def run_case(mod, case, ctx, res, deadline=None):
-    """Run one case, classify the outcome into res."""
+    """Run one case, classify the outcome into res.  A case that exceeds the module's
+    CASE_TIMEOUT is counted as inconclusive (never as a violation)."""
+    import signal
     ctx.case = case
     ctx.case_nontrivial = False
     res['evaluations'] += 1
+    limit = getattr(mod, 'CASE_TIMEOUT', 120)
+    signal.signal(signal.SIGALRM, _alarm)
+    signal.setitimer(signal.ITIMER_REAL, limit)
     try:
         mod.check(case, ctx)
+        return None
+    except CaseTimeout:
+        res['case_timeouts'] = res.get('case_timeouts', 0) + 1
         return None
     except Discard as d:
         res['discarded'] += 1
@@ -206,6 +222,8 @@ def run_case(mod, case, ctx, res, deadline=None):
         return None
     except Violation as v:
         return v
+    finally:
+        signal.setitimer(signal.ITIMER_REAL, 0)
 
 
 def _record_failure(res, v, case, origin):
@@ -321,7 +339,7 @@ def replay_task(args):
 def _pool():
     import multiprocessing as mp
     from concurrent.futures import ProcessPoolExecutor
-    return ProcessPoolExecutor(max_workers=NPROC, mp_context=mp.get_context('spawn'))
+    return ProcessPoolExecutor(max_workers=NPROC, mp_context=mp.get_context('spawn'), max_tasks_per_child=1)
 
 
 def write_replay(prop_id, config, tier, seed, failure):
@@ -439,6 +457,7 @@ def run_check(prop_id, tier, seed):
             totals['evaluations'] += r['evaluations']
             totals['discarded'] += r['discarded']
             totals['timed_out'] += r['timed_out']
+            totals['case_timeouts'] = totals.get('case_timeouts', 0) + r.get('case_timeouts', 0)
             totals['exhaustive_cases'] += r['exhaustive_cases']
             pc = totals['per_config'].setdefault(r['config'], {'evaluations': 0})
             pc['evaluations'] += r['evaluations']
@@ -519,7 +538,8 @@ def run_check(prop_id, tier, seed):
             'known_finding_hits': totals['known_hits'],
             'regression_corpus': totals['corpus'],
             'cases_skipped_by_wall_clock_guard': totals['timed_out'],
-            'inconclusive': bool(totals['timed_out']),
+            'cases_stopped_by_per_case_timeout': totals.get('case_timeouts', 0),
+            'inconclusive': bool(totals['timed_out'] or totals.get('case_timeouts', 0)),
             'violation_buckets': [v[0] for v in violations],
             'tree': REPO_DIR,
         },
